@@ -123,6 +123,9 @@ def parse_vc(path: str) -> UnitSpec:
                     cur.append((ln, rest))
             elif head in ("loop", "after_loop", "before_loop", "loop_body_start", "loop_body_end"):
                 cur = item.sections.setdefault(f"{head} {int(rest)}", [])
+            elif head in ("after_stmt", "before_stmt"):
+                n, _, pat = rest.partition(" ")
+                cur = item.sections.setdefault(f"{head} {int(n)} {pat.strip()}", [])
             elif head == "#":
                 pass
             else:
@@ -287,6 +290,73 @@ def _name_return(sig_text: str, ret_name: str, counts: dict) -> str:
     return sig_text[:after] + f" ({ret_name}: {ty}) " + rest[ty_end:]
 
 
+def _stmt_anchor(text: str, shape, pat: str, n: int, after: bool):
+    """offset just after the end (or just before the start) of the innermost statement containing the
+    n-th token-exact occurrence of `pat` inside the function body.  Statement boundaries: `;` at the
+    block's depth, or the closing brace of a block-like statement (if/match/while/for/loop/unsafe/{)."""
+    ptoks = [t.text for t in rustlex.lex(pat) if t.kind != "ws"]
+    toks = rustlex.lex(text)
+    sg = [i for i, t in enumerate(toks) if t.kind not in ("ws", "comment", "doc") and t.start >= shape.sig_end]
+    seen = 0
+    hit = None
+    for p in range(len(sg) - len(ptoks) + 1):
+        if all(toks[sg[p + q]].text == ptoks[q] for q in range(len(ptoks))):
+            seen += 1
+            if seen == n:
+                hit = p
+                break
+    if hit is None:
+        return None
+    # innermost enclosing '{' of the hit
+    depth = 0
+    q = hit - 1
+    open_q = None
+    while q >= 0:
+        t = toks[sg[q]]
+        if t.kind == "punct" and t.text in rustlex.CLOSE:
+            depth += 1
+        elif t.kind == "punct" and t.text in rustlex.OPEN:
+            if depth == 0:
+                if t.text == "{":
+                    open_q = q
+                    break
+                # inside ( or [ : keep walking out
+            else:
+                depth -= 1
+        q -= 1
+    if open_q is None:
+        return None
+    close_q = sg.index(rustlex.match_close(toks, sg[open_q]))
+    # split the block into statements
+    q = open_q + 1
+    cur = None
+    while q < close_q:
+        t = toks[sg[q]]
+        if cur is None:
+            cur = q
+        end = None
+        if t.kind == "punct" and t.text == ";":
+            end = q
+        elif t.kind == "punct" and t.text in rustlex.OPEN:
+            c = sg.index(rustlex.match_close(toks, sg[q]))
+            if t.text == "{":
+                first = toks[sg[cur]]
+                nxt = toks[sg[c + 1]] if c + 1 < close_q else None
+                blocklike = (first.kind == "ident" and first.text in rustlex.BLOCKLIKE) or first.text == "{" or first.kind == "life"
+                if blocklike and not (nxt is not None and ((nxt.kind == "ident" and nxt.text == "else") or (nxt.kind == "punct" and nxt.text in (".", "?", ";")))):
+                    end = c
+            q = c
+        if end is not None:
+            if cur <= hit <= end:
+                return toks[sg[end]].end if after else toks[sg[cur]].start
+            cur = None
+        q += 1
+    # tail expression containing the hit
+    if cur is not None and cur <= hit:
+        return None if after else toks[sg[cur]].start
+    return None
+
+
 def _join(section: list[tuple[int, str]]) -> str:
     return "\n".join(t for _, t in section)
 
@@ -300,6 +370,7 @@ class UnitBuilder:
         self.lines: list[str] = []
         self.origin: list[LineOrigin] = []
         self.fn_lines: list[tuple[int, int, str]] = []  # (first, last, item path)
+        self.lost: list[str] = []
 
     # -- emit helpers
     def emit_gen(self, text: str, item: str = ""):
@@ -343,14 +414,25 @@ class UnitBuilder:
                 groups[key] = []
                 order.append(key)
             groups[key].append((ispec, it, src))
-        self.emit_gen("#![allow(unused_imports, unused_variables, dead_code, unused_mut, unused_parens, unused_braces)]\nuse vstd::prelude::*;\nverus! {\n")
+        self.emit_gen("#![allow(unused_imports, unused_variables, dead_code, unused_mut, unused_parens, unused_braces, non_snake_case)]\n#![verifier::allow(autoderive_clone_without_spec)]\nuse vstd::prelude::*;\nverus! {\n")
         self.emit_vc(sp.prelude, "prelude")
         canaries: list[tuple[str, str, str]] = []
         for key in order:
             if key:
                 self.emit_gen(f"impl {key} {{")
             for ispec, it, src in groups[key]:
-                self._emit_item(ispec, it, src, canaries, key)
+                mark = (len(self.lines), len(self.origin), len(self.fn_lines), len(self.items), len(canaries))
+                try:
+                    self._emit_item(ispec, it, src, canaries, key)
+                except AnchorLost as e:
+                    if it.kind != "fn":
+                        raise
+                    # roll back and emit the function with its contract assumed (external_body):
+                    # callers can still be checked; this function is reported undecided.
+                    del self.lines[mark[0]:], self.origin[mark[1]:], self.fn_lines[mark[2]:], self.items[mark[3]:], canaries[mark[4]:]
+                    self.lost.append(f"{ispec.path}: {e}")
+                    ispec2 = ItemSpec(ispec.file, ispec.path, ispec.opts + ["external_body"], {k: v for k, v in ispec.sections.items() if k in ("requires", "ensures")}, ispec.line)
+                    self._emit_item(ispec2, it, src, canaries, key)
             if key:
                 # canaries of methods live in the same impl
                 for k2, cname, ctext in [c for c in canaries if c[0] == key]:
@@ -438,6 +520,12 @@ class UnitBuilder:
                     if n > len(shape.loops):
                         raise AnchorLost(f"{item_id}: loop #{n} not found")
                     ins.append((shape.loops[n - 1].label_pos - base, 0, key))
+                elif key.startswith("after_stmt ") or key.startswith("before_stmt "):
+                    _, n, pat = key.split(" ", 2)
+                    off = _stmt_anchor(text, shape, pat, int(n), key.startswith("after_stmt"))
+                    if off is None:
+                        raise AnchorLost(f"{item_id}: statement anchor #{n} `{pat}` not found")
+                    ins.append((off - base, 2, key))
                 elif key == "body_start":
                     ins.append((1, 0, key))
                 elif key == "before_tail":
@@ -516,6 +604,7 @@ class UnitResult:
     gen_path: str
     assumptions: list[str]
     raw_stderr: str = ""
+    lost: list = field(default_factory=list)
 
 
 def scan_assumptions(text: str) -> list[str]:
@@ -564,7 +653,11 @@ def run_unit(vc_path: str, repo: str, workdir: str, rlimit: int | None = None, t
     if rlimit or spec.rlimit:
         cmd += ["--rlimit", str(rlimit or spec.rlimit)]
     env = dict(os.environ)
-    p = subprocess.run(cmd, capture_output=True, text=True, cwd=workdir, env=env, timeout=1800)
+    try:
+        p = subprocess.run(cmd, capture_output=True, text=True, cwd=workdir, env=env, timeout=int(os.environ.get("VERIF_VERUS_TIMEOUT", "900")))
+    except subprocess.TimeoutExpired:
+        subprocess.run(["pkill", "-f", gen], check=False)
+        return UnitResult(spec.name, "undecided", "verus timeout", 0, 0, [], [], 0, [], b.counts, [], time.time() - t0, 0, gen, [])
     wall = time.time() - t0
     try:
         out = json.loads(p.stdout)
@@ -673,6 +766,8 @@ def run_unit(vc_path: str, repo: str, workdir: str, rlimit: int | None = None, t
         status, reason = "undecided", "rlimit/timeout: " + "; ".join(rlimit_hit[:3])
     elif real_failures:
         status, reason = "violation", f"{len(real_failures)} obligation(s) failed"
+    elif b.lost:
+        status, reason = "undecided", "anchor lost (function kept with its contract assumed, not verified): " + "; ".join(b.lost)
     elif canaries_bad:
         status, reason = "undecided", "vacuous precondition: canary verified: " + ", ".join(canaries_bad)
     elif errors != len(can_fail):
@@ -681,7 +776,9 @@ def run_unit(vc_path: str, repo: str, workdir: str, rlimit: int | None = None, t
     elif verified == 0:
         status, reason = "undecided", "zero obligations verified"
     items = [{"item": bi.spec.path, "file": bi.spec.file, "line": bi.repo_line, "sha256": bi.sha256, "kind": bi.kind, "external_body": "external_body" in bi.spec.opts} for bi in b.items]
-    return UnitResult(spec.name, status, reason, verified, errors, functions, real_failures, n_can - len(canaries_bad), canaries_bad, b.counts, items, wall, smt_ms, gen, scan_assumptions(text), p.stderr[-4000:] if status != "ok" else "")
+    res = UnitResult(spec.name, status, reason, verified, errors, functions, real_failures, n_can - len(canaries_bad), canaries_bad, b.counts, items, wall, smt_ms, gen, scan_assumptions(text), p.stderr[-4000:] if status != "ok" else "")
+    res.lost = list(b.lost)
+    return res
 
 
 if __name__ == "__main__":
